@@ -18,13 +18,33 @@ for c in man["checks"]:
         if part.get("driver"): targets.append(part["driver"])
         if part.get("harness"): pkgs.append("./" + part["harness"])
 targets = sorted(set(targets)); pkgs = sorted(set(pkgs))
+# The generated Lean files (Hive/Gen/*) are regenerated from /repo's working tree first, exactly as every check does
+# before it builds: the proofs that setup compiles are then the ones about the code as it is now.  Nothing below is
+# fatal: a proof obligation that no longer holds, or a harness that no longer builds against a changed tree, is
+# reported by the check of that property (VIOLATION ...), not by a failing setup.
+subprocess.call(["go", "build", "-tags", "verif", "./tools/..."], cwd="harness")
+for c in man["checks"]:
+    spec = checklib.load_spec(c["property_id"])
+    if spec.get("regen"):
+        ctx = checklib.Ctx(c["property_id"], "quick", 1)
+        os.makedirs(ctx.scratch, exist_ok=True)
+        try:
+            fails = spec["regen"](ctx) or []
+            if fails: print("setup: regeneration for", c["property_id"], "reported", len(fails), "failure(s) (left to the check)", flush=True)
+        except Exception as e:
+            print("setup: regeneration for", c["property_id"], "raised", repr(e), "(left to the check)", flush=True)
+        finally:
+            import shutil; shutil.rmtree(ctx.scratch, ignore_errors=True)
 print("lake build", " ".join(targets), flush=True)
-subprocess.check_call(["lake", "build"] + targets, cwd="lean")
+if subprocess.call(["lake", "build"] + targets, cwd="lean") != 0:
+    print("setup: lake build reported failures; building the targets one by one (the failing ones are left to their checks)", flush=True)
+    for t in targets:
+        if subprocess.call(["lake", "build", t], cwd="lean", stdout=subprocess.DEVNULL, stderr=subprocess.DEVNULL) != 0:
+            print("setup: target does not build:", t, flush=True)
 print("go build", " ".join(pkgs), flush=True)
-if len(pkgs) == 1:
-    subprocess.check_call(["go", "build", "-tags", "verif", "-o", os.devnull] + pkgs, cwd="harness")
-elif pkgs:
-    subprocess.check_call(["go", "build", "-tags", "verif"] + pkgs, cwd="harness")  # several main packages: results are discarded, the build cache is warm
-subprocess.check_call(["go", "build", "-tags", "verif", "./tools/..."], cwd="harness")
+rc = subprocess.call(["go", "build", "-tags", "verif", "-o", os.devnull] + pkgs, cwd="harness") if len(pkgs) == 1 else \
+     subprocess.call(["go", "build", "-tags", "verif"] + pkgs, cwd="harness")  # several main packages: results are discarded, the build cache is warm
+if rc != 0:
+    print("setup: some harness packages do not build against /repo's working tree (left to their checks)", flush=True)
 PY
 echo setup-ok
